@@ -3,12 +3,21 @@ from .. import core, dkggen
 from . import C08
 
 ID = "C09"
-MODULE = "DrandProofs.C09"
+MODULE = "DrandProofs.C09Layout"
 THEOREMS = ["Drand.DKG." + t for t in [
     "c09_signed_by_listed", "c09_role", "c09_execute_needs_leader", "c09_unlisted_key_rejected", "c09_terms_covered", "c09_seed_and_keys_not_covered",
-    "c09_substitution_counterexample", "c09_member_uses_group_keys_corrected"]]
+    "c09_substitution_counterexample", "c09_member_uses_group_keys_corrected",
+    "tie_verify_first_match", "tie_terms_from_state", "tie_signing_writes", "c09_first_match", "c09_joiner_cannot_shadow_member", "c09_impostor_rejected",
+    "c09_every_term_and_boundary_covered",
+    "tie_sig_length_variant", "c09_signed_bytes_injective_partial", "c09_layout_boundary_counterexample", "c09_fixed_enforces_sig_lengths",
+    "c09_signed_bytes_bind_terms_fixed"]]
 TRUSTED = C08.TRUSTED + ["IdealSig: a BLS identity signature verifies under key k on message m iff it was made with k on m (the harness signs every packet itself with a real key over a message it chooses, and tells the model which)",
-                         "messageForSigning is compared as a list of typed fields, i.e. modulo the byte-level framing of the concatenation"]
+                         "the harness signs every packet the way an honest node does: over messageForSigning(…, termsFromState(state holding the signed terms)) (export shim VerifTermsAsSigned)",
+                         "byte level (Drand/DKG/Layout.lean): strings are 7-bit text, uint32 fields are 4 little-endian bytes, times are the 15 bytes of Go's "
+                         "time.MarshalBinary for whole-second UTC times; kyber's point lengths per scheme (schemeSigLen) are a table the driver compares with every "
+                         "well-formed signature the harness makes",
+                         "go2lean facts (Gen.DKGAuth): verifyMessage's lookup (lists, first match), the writes of messageForSigning, termsFromState's field map, "
+                         "validateEpoch's chain, whether proposal validation pins signature lengths — tied by tie_* theorems"]
 ASSUMPTIONS = C08.ASSUMPTIONS
 
 COVERED = ["epoch", "thr", "timeout", "catchup", "period", "scheme", "genesis"]
@@ -60,11 +69,18 @@ def oracle_history(mops, replies, now):
                 a = [C08.addr_of(x) for x in st[sk]]
                 b = [C08.addr_of(x) for x in ncur[lk]]
                 if a != b:
+                    if any(int(x) in dkggen.EMBED for x in ncur["R"] + ncur["J"] + ncur["V"]):
+                        return (f"{op}: accepted although the signed {lk} list {st[sk]} differs from the stored {ncur[lk]}: the boundary between two "
+                                "participant lists sits inside a participant's signature field, the signed BYTES are the same",
+                                "signature-does-not-cover:list-boundary-inside-signature-field")
                     return (f"{op}: accepted although the signed {lk} list {st[sk]} differs from the stored {ncur[lk]}", "terms-not-covered")
             # fields the statement asks for but the signed message leaves out
             if st["seed"] != ncur["seed"]:
                 return (f"{op}: genesis seed {ncur['seed']} applied, the signature was made over seed {st['seed']}", "signature-does-not-cover:genesis-seed")
             for lk in ("J", "R", "V"):
+                if [int(x) for x in st[lk]] != [int(x) for x in ncur[lk]] and any(int(x) in dkggen.EMBED for x in ncur[lk]):
+                    return (f"{op}: {lk} applied {ncur[lk]}, signed {st[lk]}: a participant whose signature field holds more than a signature",
+                            "signature-does-not-cover:list-boundary-inside-signature-field")
                 if [int(x) for x in st[lk]] != [int(x) for x in ncur[lk]]:
                     return (f"{op}: participant keys of {lk} applied {ncur[lk]} differ from the signed ones {st[lk]}", "signature-does-not-cover:participant-keys")
             # 4. a member authenticates against the keys of its current group
